@@ -708,7 +708,92 @@ def check_C18(chk):
                       BASE_ASSUME)
 
 
-CHECKS = {"C10": check_C10, "C11": check_C11, "C12": check_C12, "C17": check_C17, "C07": check_C07, "C18": check_C18, "C13": check_C13, "C06": check_C06, "C04": check_C04, "C05": check_C05, "C01": check_C01, "C02": check_C02, "C03": check_C03, "C16": check_C16}
+def check_C08(chk):
+    """one owner per host cluster; allocator never double-allocates; reuse"""
+    rng = random.Random(chk.seed * 31 + 8)
+    G = S.geoms(chk.tier)
+    scens = []
+    n = 24 if chk.tier == "quick" else 300
+    gl = [dict(cb=12, ro=6, bsb=9, vclusters=64, params={"l2": [9, 1024], "rb": [9, 1024]}),   # 64 refcounts per slice
+          dict(cb=12, ro=4, bsb=9, vclusters=64, params={"l2": [9, 1024], "rb": [9, 1536]}),   # 256 per slice
+          G["G4"], G["G1"], G["G6"], dict(cb=10, ro=5, bsb=9, vclusters=100, params={"l2": [9, 1024], "rb": [9, 1024]})]
+    for i in range(n):
+        geo = gl[i % len(gl)]
+        bpc = 1 << (geo["cb"] - geo["bsb"])
+        images = [S.image_plain(geo, "build", shuffle=rng.randrange(1 << 20), holes=rng.choice([0, 2]))
+                  if i % 3 else S.image_shaped(rng, geo, 1, frac=0.3, kinds=("data", "zero", "comp"))]
+        steps = []
+        kind = i % 4
+        if kind in (0, 1):
+            # allocator histories driven through the hook: single and multi
+            # cluster runs, frees that fragment the space, slice boundaries
+            for k in range(rng.randrange(20, 50)):
+                r = rng.random()
+                if r < 0.6:
+                    steps.append({"op": "alloc", "n": rng.choice([1, 1, 1, 2, 3, 5, 8, 20, 70])})
+                elif r < 0.9:
+                    steps.append({"op": "free_alloc", "idx": rng.randrange(100)})
+                elif r < 0.95:
+                    gb = rng.randrange(geo["vclusters"]) * bpc
+                    steps.append({"op": "write", "gb": gb, "n": min(bpc * rng.randrange(1, 4), geo["vclusters"] * bpc - gb)})
+                else:
+                    steps.append({"op": "flush"})
+            steps += [{"op": "flush"}]
+            scens.append(S.mk(f"c08a-{i}", geo, images, steps, sample_ram=True))
+        elif kind == 2:
+            # concurrent allocators and writers
+            for gidx in range(3):
+                ops = []
+                for k in range(rng.randrange(2, 5)):
+                    r = rng.random()
+                    if r < 0.5:
+                        ops.append({"op": "alloc", "n": rng.choice([1, 2, 3, 6])})
+                    elif r < 0.7:
+                        ops.append({"op": "free_alloc", "idx": rng.randrange(100)})
+                    elif r < 0.9:
+                        gb = rng.randrange(geo["vclusters"]) * bpc
+                        ops.append({"op": "write", "gb": gb, "n": min(bpc * rng.randrange(1, 3), geo["vclusters"] * bpc - gb)})
+                    else:
+                        gb = rng.randrange(geo["vclusters"]) * bpc
+                        ops.append({"op": "discard", "gb": gb, "n": min(bpc * 2, geo["vclusters"] * bpc - gb)})
+                steps.append({"op": "par", "ops": ops})
+            steps += [{"op": "flush"}, {"op": "sweep"}]
+            scens.append(S.mk(f"c08c-{i}", geo, images, steps, sample_ram=True,
+                              sched={"policy": rng.choice(["random", "pct"]), "seed": rng.randrange(1 << 30)}))
+        else:
+            # reuse: write/discard cycles over a fixed working set must not grow the file
+            ws = rng.randrange(4, 10)
+            base = rng.randrange(geo["vclusters"] - ws)
+            cycles = 6 if chk.tier == "quick" else 15
+            for cy in range(cycles):
+                order = list(range(ws))
+                rng.shuffle(order)
+                for c in order:
+                    steps.append({"op": "write", "gb": (base + c) * bpc + rng.randrange(bpc), "n": 1})
+                if rng.random() < 0.5:
+                    steps.append({"op": "flush"})
+                steps.append({"op": "discard", "gb": base * bpc, "n": ws * bpc})
+                if rng.random() < 0.5:
+                    steps.append({"op": "flush"})
+            steps += [{"op": "flush"}, {"op": "sweep"}]
+            img = S.image_plain(geo, "build")
+            # header + reftable + refblock + l1 + l2 tables + working set + one refblock span of slack
+            bound = 1 + 1 + 2 + 1 + 2 + ws + 8
+            scens.append(S.mk(f"c08r-{i}", geo, [img], steps, sample_ram=True, bound_clusters=bound))
+    res, st = Q.run_batch(scens, chk.wd, known=chk.known_tags(), par=14)
+    chk.consume(res, st, props=("C08", "C07", "PANIC"))
+    for name, r in res.items():
+        chk.nontrivial.add(name)
+    return chk.finish("model_checking",
+                      "hook H1 samples the in-ram metadata view after every scheduler step (recorded on change) and TLC evaluates Inv_C08 on it: "
+                      "no host cluster referenced twice, refcount >= references, hook-allocated clusters owned by nobody else; allocation histories "
+                      "driven through hook H3 (single/multi-cluster, fragmenting frees, slice and refblock boundaries, concurrent allocators and "
+                      "writers): Inv_C08alloc (run aligned, contiguous, <= requested, free when the call started, given to one requester); write/"
+                      "discard cycles over a fixed working set with a bound on the host file length (Inv_C08bound)",
+                      BASE_ASSUME + ["the in-ram view is read through hook H1 (verif_snapshot) and overlaid on the visible file by the harness"])
+
+
+CHECKS = {"C08": check_C08, "C10": check_C10, "C11": check_C11, "C12": check_C12, "C17": check_C17, "C07": check_C07, "C18": check_C18, "C13": check_C13, "C06": check_C06, "C04": check_C04, "C05": check_C05, "C01": check_C01, "C02": check_C02, "C03": check_C03, "C16": check_C16}
 
 
 def main():
